@@ -5,6 +5,8 @@ pub mod c06;
 pub mod c10;
 pub mod c11;
 pub mod c12;
+pub mod c15;
+pub mod sqlprops;
 
 pub type RunFn = fn(&Ctx, &Findings) -> Report;
 pub type ReplayFn = fn(&str, &J, &mut Stats) -> Result<Vec<Fail>, String>;
@@ -12,9 +14,13 @@ pub type ReplayFn = fn(&str, &J, &mut Stats) -> Result<Vec<Fail>, String>;
 pub fn lookup(id: &str) -> Option<(RunFn, ReplayFn)> {
     match id {
         "C06" => Some((c06::run, c06::replay)),
+        "C07" => Some((sqlprops::run_c07, sqlprops::replay_c07)),
+        "C08" => Some((sqlprops::run_c08, sqlprops::replay_c08)),
         "C10" => Some((c10::run, c10::replay)),
         "C11" => Some((c11::run, c11::replay)),
         "C12" => Some((c12::run, c12::replay)),
+        "C14" => Some((sqlprops::run_c14, sqlprops::replay_c14)),
+        "C15" => Some((c15::run, c15::replay)),
         _ => None,
     }
 }
